@@ -32,7 +32,8 @@ def _scale(shape):
 
 def build(cin, shape):
     k, base, tz, frame = _scale(shape)
-    stamps = [base + pd.Timedelta(days=k * t) for t in cin["idx"]]
+    half = pd.Timedelta(hours=12 * k)          # one abstract unit = half of k days
+    stamps = [base + half * t for t in cin["idx"]]
     index = pd.DatetimeIndex(stamps).tz_convert(tz)
     vals = np.array([10.0 + 1.5 * j if v == "fin" else np.nan for j, v in enumerate(cin["vals"])])
     if frame:
@@ -40,9 +41,9 @@ def build(cin, shape):
     else:
         data = pd.Series(vals, index=index, name="value")
     kw = {}
-    conv = (lambda t: (base + pd.Timedelta(days=k * t)).tz_convert(tz))
+    conv = (lambda t: (base + half * t).tz_convert(tz))
     if shape == "billing_frame_utc":   # plain datetime limits as the repository's own tests use
-        conv = (lambda t: (base + pd.Timedelta(days=k * t)).to_pydatetime())
+        conv = (lambda t: (base + half * t).to_pydatetime())
     kw["end"] = conv(cin["endp"]) if cin["hasEnd"] else None
     kw["start"] = conv(cin["startp"]) if cin["hasStart"] else None
     kw["max_days"] = k * cin["maxd"] if cin["hasMax"] else None
@@ -83,7 +84,7 @@ def realise(cin, shape):
         out["res"] = "BadReturnShape"
         return out
     sel, warns = got
-    unit = pd.Timedelta(days=k)
+    unit = pd.Timedelta(hours=12 * k)
     oidx = []
     for ts in sel.index:
         d = ts.tz_convert("UTC") - base
